@@ -30,11 +30,11 @@ CHECKS = {
     "C15": ("exploration", "runtime monitoring with a metamorphic oracle: restricted walks (every node budget 0..|U|+2, every link budget 0..|L|+1, start-at every visited path, visit-links-once, loader skip sets) compared with the implementation's own unrestricted visit and load sequences recorded at the callback and storage boundaries",
             "Held on the (graph, selector) pairs observed; per pair the budget and start-at spaces are enumerated completely (sampled for walks longer than 40-60 visits).",
             "Trusted: nothing beyond the unrestricted walk being deterministic (checked). No preloader.", "DESIGN.md §2 C15"),
-    "C20": ("exploration", "sanitizer + result monitor: Go race detector build; goroutines run seeded read-only operations on one pool of shared nodes, selectors, prototypes, type systems, registry, link system and traversal config, in warm mode (sequential reference digests first) and cold mode (first use is concurrent); per-goroutine result digests compared with sequential ones; race logs de-duplicated by innermost library frames; overlap table shows which operation pairs were in flight together",
+    "C20": ("exploration", "sanitizer + result monitor: Go race detector build; goroutines run seeded read-only operations on one pool of shared nodes, selectors, prototypes, type systems, registry, link system and traversal config, in warm mode (sequential reference digests first) and cold mode (first use is concurrent); per-goroutine result digests compared with sequential ones; race logs de-duplicated by innermost library frames; overlap table shows which operation pairs were in flight together; link systems over memstore and over a pre-filled fsstore; a separate process for first-time schema inference under readers and for eight goroutines binding the same not-yet-inferred types at once",
             "Held on the schedules observed apart from one known finding (first-time schema inference writes the process-wide bindnode type system while readers use it). Absence of a race report is not absence of a race.",
             "Trusted: the race detector. Stream-backed bytes nodes share the caller's reader and are not read concurrently.", "DESIGN.md §2 C20"),
-    "C18": ("fault_enumeration", "runtime monitoring with crash and fault injection from outside the process: strace enumerates the file-system syscalls of each write scenario and injects SIGKILL (crash point) or an errno before every one of them; a fresh verifier process classifies the directory afterwards; concurrent reader/writer histories recorded at the client boundary and checked with porcupine (write-once register per key) in the race-detector build",
-            "Every syscall boundary of every scenario was used as a crash point and as a fault point and the store was found atomic and usable afterwards; concurrent histories were linearizable and free of partial reads and race reports. Exhaustive per scenario; sampling over schedules.",
+    "C18": ("fault_enumeration", "runtime monitoring with crash and fault injection from outside the process: strace enumerates the file-system syscalls of each write scenario and injects SIGKILL (crash point) or an errno before every one of them; a fresh verifier process classifies the directory afterwards; concurrent reader/writer histories recorded at the client boundary and checked with porcupine (write-once register per key) in the race-detector build; fault-then-crash enumeration on the path a fault opens; random-instant SIGKILL of a child with six concurrently writing goroutines; puts under contexts cancelled at their n-th consultation; keys given two contents by concurrent writers (every read is one of them in full)",
+            "Every syscall boundary of every scenario was used as a crash point and as a fault point (and, where a fault opens another path, every syscall of that path as a crash point too) and the store was found atomic and usable afterwards; concurrent histories were linearizable and free of partial or mixed reads and race reports; cancelled writes left keys absent or complete. Exhaustive per scenario; sampling over schedules and kill instants.",
             "Trusted: strace injection as crash/fault model (process death and syscall errors; no power-loss model), porcupine, the race detector.", "DESIGN.md §2 C18"),
     "C17": ("exploration", "runtime monitoring: histories of storage operations (incl. overlapping stream lifetimes) checked online against a write-once map model; containment of the filesystem store observed externally with strace (every path argument of every file syscall inside a history) and with sentinel files around the base directory",
             "Held on the histories observed for memstore, cidlink.Memory and fsstore (default and hex-escaped, three shardings) over a hostile key pool. Sampling of histories.",
@@ -48,13 +48,13 @@ CHECKS = {
     "C12": ("exploration", "runtime monitoring: model-based monitor of assembler call sequences — generated legal sequences with the two pinned rejections (repeated key in three call forms; unacceptable kind) injected at random positions, outcome class per call and read-out of Build() checked against a sequential model of the contract; Reset/reuse sequences",
             "Held on the sequences observed for basicnode, bindnode (struct, typed maps, renamed representation, Any map; type and representation level) and the checked-in generated code. Freshly generated code is exercised by C13.",
             "Trusted: the sequential contract model in lib/props/c12.go and lib/obs. Misuse orders are never generated.", "DESIGN.md §2 C12"),
-    "C11": ("exploration", "runtime monitoring: snapshot-and-reread monitor — every tracked node is read out in full right after production and again after each step of a generated history of later library operations (builder reset/reuse, assign-and-extend, transforms, walks, subset matches, further loads and decodes)",
+    "C11": ("exploration", "runtime monitoring: snapshot-and-reread monitor — every tracked node (generic, decoded, loaded, matched, transformed, and typed bindnode nodes with inferred and user-supplied Go types) is read out in full right after production and again after each step of a generated history of later library operations (builder reset/reuse, assign-and-extend incl. builders of the node's own prototype that are then used further, transforms, walks, subset matches, further loads and decodes)",
             "Held on the histories observed: no tracked node from any producer changed its read-out, and no accessor disagreed with itself on a second read. Sampling of producers and histories.",
             "Trusted: lib/obs read-out monitor. Callers writing into slices they own are excluded as the property states.", "DESIGN.md §2 C11"),
     "C05": ("exploration", "runtime monitoring: histories of store/compute/load operations checked online against a sequential model (write-once map) with reference links (stdlib digests, hand-built CIDs) over reference block bytes",
             "Held on the histories observed: every Store/ComputeLink returned the reference link, storage held exactly the reference bytes, every load form returned the stored value and bytes, results handed out earlier did not change later. Sampling of histories and configurations.",
             "Trusted: lib/ref/link, lib/ref/cbor, stdlib crypto; for cbor/json/dag-json the expected bytes come from the codec's own direct Encode.", "DESIGN.md §2 C05"),
-    "C06": ("fault_enumeration", "runtime monitoring with fault injection at the storage boundary: per stored block, exhaustive bit flips, truncations, read-error offsets, extensions, substitutions, chunkings; writer/encoder failures on the store side with a recording committer",
+    "C06": ("fault_enumeration", "runtime monitoring with fault injection at the storage boundary: per stored block, exhaustive bit flips, truncations, read-error offsets, extensions, substitutions, chunkings, last-bytes-with-EOF reads and extended blocks arriving in pieces; writer/encoder failures on the store side with a recording committer",
             "For each corpus block every fault of the listed classes was injected into each of Load/LoadRaw/LoadPlusRaw/Fill and the outcome compared with an independent digest of the served bytes; exhaustive per block, sampling over blocks.",
             "Trusted: stdlib digests + lib/ref/link. (0,nil) reads are not part of the fault family (see DESIGN §5).", "DESIGN.md §2 C06"),
     "C01": ("exploration", "runtime monitoring: read-out monitor (every accessor twice, both iterators, every lookup form, wrong-kind probes) over nodes built by randomly drawn legal build programs, compared with the abstract value; DeepEqual/Copy compared with model equality",
@@ -63,7 +63,7 @@ CHECKS = {
     "C02": ("exploration", "runtime monitoring: differential oracle (independent canonical DAG-CBOR reference encoder) over generated values, all insertion orders of small maps, head-boundary sweep, interleaved failed encodes",
             "Held on the executions observed: every generated value, in several insertion orders and node implementations, encoded to exactly the reference encoder's bytes; EncodedLength matched; decode read back the key-sorted value. Sampling with boundary bias, not a proof.",
             "Trusted: lib/ref/cbor encoder (written from the spec), go-cid for CID parsing.", "DESIGN.md §2 C02"),
-    "C03": ("exploration", "runtime monitoring: differential oracle (independent strict reference decoder) over an exhaustive short-input space plus single-point, multi-point and structure-aware mutations of valid encodings; basicnode and recording-assembler targets",
+    "C03": ("exploration", "runtime monitoring: differential oracle (independent strict reference decoder) over an exhaustive short-input space plus single-point, multi-point and structure-aware mutations of valid encodings; basicnode and recording-assembler targets; bytes.Reader and plain io.Reader shapes (whole, one byte per call, last bytes with io.EOF)",
             "Held on the executions observed; the sub-space of all byte strings of length 0-2 (quick) / 0-3 (thorough) is enumerated completely, the rest is mutation sampling. One known finding in the pinned dependency refmt (-2^64 decodes as 0).",
             "Trusted: lib/ref/cbor decoder, go-cid for CID syntax; UTF-8 validity and resource limits are outside the oracle.", "DESIGN.md §2 C03"),
 }
